@@ -311,6 +311,18 @@ def fam_c08(R, n):
             args = rust_str(p) + ('' if pr is None else ', priority = %d' % pr)
             vs.append('#[%s(%s)] V%d,' % ('token' if tok else 'regex', args, j))
         out.append(dict(family='c08', src=enum([], vs), meta=dict(leaves=leaves)))
+    # enumerated (round 27): an explicit priority that equals the default of the pattern it overlaps with - a tie like any other,
+    # whichever of the two is the written one and in either declaration order; the controls are one off
+    for (k1, p1, d1), (k2, p2, d2) in [(('token', 'let', 6), ('regex', '[a-z]+', 2)), (('regex', 'ab', 4), ('regex', '[a-c]b', 4)),
+                                       (('regex', 'a+', 2), ('token', 'a', 2)), (('regex', '[a-z]+', 2), ('regex', 'a[a-z]', 4)),
+                                       (('token', 'if', 4), ('regex', 'i[a-z]', 4)), (('regex', '[0-9]+', 2), ('regex', '[0-9][0-9a-f]*', 2))]:
+        for delta in (0, 1):
+            for written in (0, 1):
+                # the written side gets `priority = default of the other (+ delta)`
+                a = '#[%s(%s%s)] V0,' % (k1, rust_str(p1), ', priority = %d' % (d2 + delta) if written == 0 else '')
+                b = '#[%s(%s%s)] V1,' % (k2, rust_str(p2), ', priority = %d' % (d1 + delta) if written == 1 else '')
+                for vs in ([a, b], [b.replace('V1', 'V0'), a.replace('V0', 'V1')]):
+                    out.append(dict(family='c08-mixed', src=enum([], vs), meta=dict(leaves=None)))
     # enumerated: three patterns matching a common string, two tied at the top priority, the third lower, in every
     # declaration order (the tied ones adjacent, or separated by the lower one)
     for trip in itertools.permutations(['a', '[a-c]', 'a+', '[a-z]+'], 3):
